@@ -124,7 +124,35 @@ func envOr(k, d string) string {
 	return d
 }
 
-var harnessRe = regexp.MustCompile(`(?m)^func (Harness_(C[0-9]+)_[A-Za-z0-9_]+)\(\)`)
+// A harness serves every property whose id is a leading component of its name:
+// Harness_C01_C02_schedule serves C01 and C02. An assertion message may start with a
+// tag "[C02] ..." or "[C02,C05] ..."; it then counts only for the listed properties.
+var harnessRe = regexp.MustCompile(`(?m)^func (Harness_((?:C[0-9]+_)+)[A-Za-z0-9_]+)\(\)`)
+
+func harnessServes(ids, id string) bool {
+	for _, p := range strings.Split(strings.TrimSuffix(ids, "_"), "_") {
+		if p == id {
+			return true
+		}
+	}
+	return false
+}
+
+func msgForProperty(msg, id string) bool {
+	if !strings.HasPrefix(msg, "[") {
+		return true
+	}
+	end := strings.Index(msg, "]")
+	if end < 0 {
+		return true
+	}
+	for _, p := range strings.Split(msg[1:end], ",") {
+		if strings.TrimSpace(p) == id {
+			return true
+		}
+	}
+	return false
+}
 
 func loadProgram(files []harnessFile, pkgDirs []string) (*ssa.Program, []*ssa.Package, []*packages.Package, error) {
 	overlay := map[string][]byte{}
@@ -463,7 +491,7 @@ func doCheck(id, tier, only string, verbose bool, workers, seed int, noNative bo
 	for _, f := range files {
 		b, _ := os.ReadFile(f.real)
 		for _, m := range harnessRe.FindAllStringSubmatch(string(b), -1) {
-			if m[2] == id && (only == "" || only == m[1]) {
+			if harnessServes(m[2], id) && (only == "" || only == m[1]) {
 				hs = append(hs, hdesc{m[1], f.pkgDir})
 				pkgDirs[f.pkgDir] = true
 			}
@@ -540,6 +568,9 @@ func doCheck(id, tier, only string, verbose bool, workers, seed int, noNative bo
 			case "inconclusive", "engine", "deadlock":
 				problems = append(problems, fmt.Sprintf("[%s] %s: %s @ %s", s.Harness, f.Kind, f.Msg, f.Where))
 				continue
+			}
+			if (f.Kind == "assert" || f.Kind == "known") && !msgForProperty(f.Msg, id) {
+				continue // an obligation of another property served by the same harness
 			}
 			key := s.Harness + "|" + f.Kind + "|" + f.Site + "|" + f.Msg + "|" + f.Known
 			g, ok := groups[key]
